@@ -23,7 +23,7 @@ TRUSTED = [
 ]
 ASSUMPTIONS = [
     'the region satisfies RI with at least two rows and two columns (single row/column lattices: finding D16)',
-    'quadtree regions and region-bound magnitude grids: bounded stand-in only',
+    'quadtree regions: QuadtreeGrid2D.get_index_of over arrays of points inside the grid and spatial_counts over that lookup contract are proved; points outside a quadtree grid (open known finding), region-bound magnitude grids and the other methods on quadtree regions: bounded stand-in only',
     'floats as reals',
 ]
 EXPLANATION = ('counts[i] / counts[i,k] / counts[k] equal the number of events the region attributes to cell i and bin1d_vec bins to k (loop '
